@@ -212,6 +212,33 @@ static void run_near(uint64_t idx, pv_rng* rng) {
     PV_DISTINCT("nontrivial", pv_mix(0xe, idx));
 }
 
+/* ---------------------------------------------------------------- (e') substitutions inside phrases that two lists recognise
+ * "... and never success": a phrase valid in list A whose tokens all exist in list B as well (typed in full in one, as abbreviations
+ * in the other, or shared characters) is ambiguous; after replacing one of its words by another shared word the automatic decoder
+ * may say "multiple languages" or "checksum", but it must not pick a reading and succeed - unless the model agrees that exactly one
+ * list still recognises every token and its checksum holds. */
+static uint64_t n_ambsub(void) { return (uint64_t)pv_nlangs * (uint64_t)pv_nlangs * pv_scaled(6, 200); }
+static void run_ambsub(uint64_t idx, pv_rng* rng) {
+    int a = (int)(idx % (uint64_t)pv_nlangs), b = (int)((idx / (uint64_t)pv_nlangs) % (uint64_t)pv_nlangs);
+    if (a == b || !pv_langs[a].lib || !pv_langs[b].lib) return;
+    unsigned coin = pv_gen_coin(rng), d[16]; pv_mseed m;
+    if (!pv_gen_ambiguous(rng, a, b, coin, 7, d, &m)) { PV_COUNT("ambsub.not_constructible", 1); return; }
+    pv_mlang* L = &pv_langs[a];
+    for (int k = 0; k < 12; ++k) {
+        unsigned e[16]; memcpy(e, d, sizeof e);
+        if (k) { int p = (int)pv_randn(rng, 16), q = (int)pv_randn(rng, 16); e[p] = d[q] != d[p] ? d[q] : d[(q + 1) % 16]; }        /* k = 0: the ambiguous phrase itself; else one word replaced by another shared word */
+        char raw[2048]; pv_m_join_space(L, e, raw, sizeof raw);
+        char* in = pv_exact_str(raw);
+        pv_mdecode md; pv_m_decode(in, coin, NULL, 7, &md);
+        polyseed_data* s = NULL; const polyseed_lang* lo = NULL; int st = pv_api_decode(in, coin, pv_randn(rng, 2) ? &lo : NULL, &s); PV_COUNT("evaluations", 1);
+        if (md.status >= 0 && st != md.status) pv_violation("C02/ambiguous-phrase/auto-differs-from-model", "%s phrase whose tokens %s also recognises, %s: decode -> %s, model %s; '%s'", L->name_en, pv_langs[b].name_en, k ? "one word replaced" : "unaltered", pv_status_name(st), pv_status_name(md.status), pv_esc(in));
+        else pv_countf(1, "ambsub.%s", pv_status_name(st));
+        if (st == POLYSEED_OK) pv_api_free(s);
+        free(in);
+    }
+    PV_DISTINCT("nontrivial", pv_mix(0xab, idx));
+}
+
 /* ---------------------------------------------------------------- (f) the same clause while other threads decode their own phrases */
 static bool conc_iter(pv_rng* r, int iter, void* user, char* err, size_t errsz) {
     (void)iter; (void)user;
@@ -243,6 +270,6 @@ static void fini(void) {
     pv_set_flag("exhaustive.arith_all_2047_wrong_check_words", pv.tier == 1);
 }
 int main(int argc, char** argv) {
-    static const pv_section secs[] = { { "arith", n_arith, run_arith }, { "subst", n_subst, run_subst }, { "unique", n_unique, run_unique }, { "load", n_load, run_load }, { "nearwords", n_near, run_near }, { "concurrent", n_conc, run_conc } };
-    return pv_main(argc, argv, "C02", secs, 6, init, fini);
+    static const pv_section secs[] = { { "arith", n_arith, run_arith }, { "subst", n_subst, run_subst }, { "unique", n_unique, run_unique }, { "load", n_load, run_load }, { "nearwords", n_near, run_near }, { "ambiguous", n_ambsub, run_ambsub }, { "concurrent", n_conc, run_conc } };
+    return pv_main(argc, argv, "C02", secs, (int)(sizeof secs / sizeof *secs), init, fini);
 }
